@@ -9,6 +9,7 @@ import (
 	"math/rand"
 	"os"
 	"path/filepath"
+	"regexp"
 	"sort"
 	"strconv"
 	"strings"
@@ -452,6 +453,7 @@ func coalesceIsoCmd(args []string) int {
 	pools := fs.Int("pools", 200, "random pools")
 	repo := fs.String("repo", "/repo", "repository root")
 	stress := fs.Int("stress", 0, "concurrent stress rounds (race build)")
+	onlyStress := fs.Bool("only-stress", false, "run only the concurrent rounds (own process: the Go runtime ends the process when it sees concurrent map access)")
 	fs.Parse(args)
 	rng := newRand(*seed, 15)
 	golden := loadGoldenGroups(*repo)
@@ -478,6 +480,20 @@ func coalesceIsoCmd(args []string) int {
 			return g
 		}
 		g, _ := randomGroup(rng)
+		// records that fail to parse when their Data is asked for (a SYSCALL record without arch or
+		// syscall, or with junk in them; a cut or emptied body), next to healthy records
+		if rng.Intn(5) == 0 && len(g) > 0 {
+			g = append([]recSpec(nil), g...)
+			for n := 1 + rng.Intn(2); n > 0; n-- {
+				i := rng.Intn(len(g))
+				for j := range g { // the SYSCALL record more often than the others
+					if g[j].typ == 1300 && rng.Intn(2) == 0 {
+						i = j
+					}
+				}
+				g[i].body = damageBody(rng, g[i].body)
+			}
+		}
 		// all message groups are in C15's domain, also odd ones: an EOE record that is not
 		// last (or several), a record given twice
 		if rng.Intn(4) == 0 && len(g) > 0 {
@@ -569,6 +585,9 @@ func coalesceIsoCmd(args []string) int {
 		}
 	}
 	sweepSyscalls := []string{"open", "execve", "connect", "kill", "setuid", "mount", "nosuch"}
+	if *onlyStress {
+		normTypes, *behs, *pools = nil, "", 0
+	}
 	for _, tn := range normTypes {
 		t, err := auparse.GetAuditMessageType(tn)
 		if err != nil {
@@ -658,7 +677,13 @@ func coalesceIsoCmd(args []string) int {
 	}
 
 	// concurrent coalescing / resolving of different events (meaningful in the race build)
+	// entries that expire at once take the caches' refresh path on every hit
+	shortUsers, shortGroups := aucoalesce.NewUserCache(time.Nanosecond), aucoalesce.NewGroupCache(time.Nanosecond)
 	for round := 0; round < *stress; round++ {
+		users, groups := users, groups
+		if round%2 == 1 {
+			users, groups = shortUsers, shortGroups
+		}
 		var wg sync.WaitGroup
 		for g := 0; g < 8; g++ {
 			wg.Add(1)
@@ -686,6 +711,33 @@ func coalesceIsoCmd(args []string) int {
 	printJSON(map[string]interface{}{"stats": stats})
 	return 0
 }
+
+// damageBody makes a record body that the parser accepts as a message but whose fields fail to parse.
+func damageBody(r *rand.Rand, body string) string {
+	switch r.Intn(8) {
+	case 0:
+		return strings.Replace(body, "arch=c000003e", "arch=zz", 1)
+	case 1:
+		return strings.Replace(body, "arch=c000003e ", "", 1)
+	case 2:
+		return regexpSyscall.ReplaceAllString(body, "syscall=abc")
+	case 3:
+		return regexpSyscall.ReplaceAllString(body, "")
+	case 4:
+		return ""
+	case 5:
+		return " "
+	case 6:
+		if len(body) > 0 {
+			return body[:r.Intn(len(body))]
+		}
+		return body
+	default:
+		return strings.Replace(strings.Replace(body, "argc=", "argc=x", 1), "saddr=", "saddr=Z", 1)
+	}
+}
+
+var regexpSyscall = regexp.MustCompile(`syscall=\d+ ?`)
 
 func boolInt(b bool) int {
 	if b {
